@@ -76,6 +76,23 @@ BUILT = {
             'unique visible definition, otherwise the program must be rejected.',
             'Reference model mc/refasm.py.',
             'DESIGN.md 3/C06'),
+    'C09': ('model_checking',
+            'exhaustive enumeration of symbol tables x definition sources x use lines against a token-level substitution model',
+            'Every symbol table over three symbols (values: literals, chains, diamonds, self reference, 2- and 3-cycles, identifiers '
+            'that merely contain a symbol name) x every assignment of definition sources (ISA definition, -D, #define) x use lines '
+            'written before and after the #define block is assembled; bytes must equal whole-word, definition-ordered, repeated '
+            'textual substitution; cycles and double definitions (all source pairs) must be rejected.',
+            'Reference substitution written in mc/props/c09.py over token lists. Empty replacements only in double-definition cases.',
+            'DESIGN.md 3/C09'),
+    'C11': ('exploration',
+            'exhaustive product of data/fill directives, value lists, strings and terminators against direct byte computation',
+            'Every .byte/.2byte/.4byte/.8byte list of length <=2 over 20 values (negative, oversized, label and forward-label '
+            'expressions, character literals; length 3 over 7 values) in both byte orders, every string of length <=3 over 10 '
+            'characters/escapes in both quote styles under .byte/.cstr/.asciiz x terminator and as embedded string, and the '
+            'fill/zero/zerountil grid, each placed between a prefix and a labelled sentinel.',
+            'Reference bytes from mc/refasm.py; known finding F24b (list starting with a character literal) attributed only when the '
+            'observed image equals the defect-mode prediction.',
+            'DESIGN.md 3/C11'),
 }
 
 NOT_BUILT_REASON = 'check not built yet (work in progress in this session); no claim made'
